@@ -390,6 +390,10 @@ func analyze(cl *cluster) *analysis {
 		if len(b.Transactions) > 0 {
 			a.obs["blocks_with_transactions"]++
 		}
+		if len(b.Transactions) >= 500 {
+			a.obs["blocks_with_500_or_more_transactions"]++
+		}
+		a.obs["largest_block_on_chain_txs"] = max(a.obs["largest_block_on_chain_txs"], int64(len(b.Transactions)))
 		a.obs["transactions_on_chain"] += int64(len(b.Transactions))
 		if rec.maxView[h] > 0 {
 			a.obs["heights_with_view_change"]++
@@ -408,7 +412,7 @@ func analyze(cl *cluster) *analysis {
 	// (3) inclusion: a block proposed at view 0 by primary p omits a
 	// transaction that was in p's pool since before p accepted the previous
 	// block, is still valid, and fits (under p's own limits)
-	for h := uint32(2); h <= a.maxH; h++ {
+	for h := uint32(1); h <= a.maxH; h++ {
 		b := blocks[h]
 		if b == nil {
 			continue
@@ -451,7 +455,8 @@ func analyze(cl *cluster) *analysis {
 			tr.mu.Lock()
 			at, pooled := tr.PooledAt[pn]
 			tr.mu.Unlock()
-			if !pooled || at+2 > h || tr.VUB < h {
+			// (what was pooled before the services started is in time for height 1)
+			if !pooled || (at+2 > h && !tr.PreStart) || tr.VUB < h {
 				continue
 			}
 			if ih, ok := a.included[th]; ok && ih <= h {
